@@ -262,13 +262,12 @@ example : (0 : ℝ) < 1 ∧ (0 : ℝ) ≤ 3 ∧ (1 : ℝ) * 1 ^ 2 ≤ 3 ^ 2 ∧
 
 The generator of `Gen/Q/JTables.lean` refuses non-finite entries, so every abscissa is an exact
 rational (the decimal text of the data file, 15 significant digits).  Chunk `i` holds rows
-`100·i … 100·(i+1)` inclusive. -/
+`100·i … 100·(i+1)` inclusive.
 
-/-- nominal spacing `1020/9999` truncated to 13 decimals. -/
-def h : Rat := 1020102010201 / 10 ^ 13
-/-- spacing tolerance `2·10⁻¹²`.  NB: `10⁻¹²` is NOT enough — the file stores 15 significant
-digits, i.e. 12 decimals above 100, and two steps deviate by `1.1·10⁻¹²` (`spacing_1e12_fails`). -/
-def tol : Rat := 2 / 10 ^ 12
+Constants (defined in `Lemmas/JTable.lean`): `h = 1020102010201/10¹³` (nominal spacing `1020/9999`
+truncated to 13 decimals) and `tol = 2·10⁻¹²`.  NB: `10⁻¹²` is NOT enough — the file stores 15
+significant digits, i.e. 12 decimals above 100, and two steps deviate by `1.1·10⁻¹²`
+(`spacing_1e12_fails`). -/
 
 /-- every chunk of the `J_b` table has strictly increasing abscissae with spacing `h ± tol`, and
 consecutive chunks overlap in one element (single kernel computation over all 100 chunks). -/
